@@ -1,6 +1,196 @@
-/- stub: property C08 has no model driver yet -/
-namespace ActixModel.Drv.C08
+import ActixModel.Util
+import ActixModel.Model.H2
+/-
+Line-protocol driver for C08 (grammar: see `harness/src/props/c08.rs`).
 
-def run (_line : String) : String := "unimplemented"
+One case = one HTTP/2 connection with up to 8 scripted streams.  For every stream the model's
+`handleResponse` is run against a capacity schedule derived from the case (window size, reset
+point); by `C08_body_exact` / `C08_schedule_independent` the printed observables do not depend
+on which contract-abiding schedule is chosen, which is exactly what the comparison with the real
+`h2` stack (whose schedule we cannot see) checks.
+-/
+namespace ActixModel.Drv.C08
+open ActixModel.Util ActixModel.H2
+
+inductive Kind where
+  | none | unit | bytes | sizedStream | bodyStream | rawStream | rawSized
+  deriving DecidableEq
+
+inductive RawItem where
+  | chunk (n : Nat) | pend | err
+  deriving DecidableEq
+
+structure Spec where
+  head : Bool
+  status : Nat
+  kind : Kind
+  items : List RawItem
+  hdrs : List Header
+  resetAt : Option Nat
+  hold : Bool
+
+/-- deterministic body content (same formula as `content_byte` in c08.rs) -/
+def contentByte (k j : Nat) : UInt8 := UInt8.ofNat ((j * 7 + k * 13 + j / 251) % 256)
+
+def content (k from_ len : Nat) : Bytes := (List.range len).map fun i => contentByte k (from_ + i)
+
+def totalLen : List RawItem → Nat
+  | [] => 0
+  | .chunk n :: r => n + totalLen r
+  | _ :: r => totalLen r
+
+/-- script → body items (Pending is not observable) -/
+def toItems (k : Nat) : Nat → List RawItem → List Item
+  | _, [] => []
+  | off, .chunk n :: r => .chunk (content k off n) :: toItems k (off + n) r
+  | off, .pend :: r => toItems k off r
+  | _, .err :: _ => [.err]
+
+def fnv32 (bs : Bytes) : Nat :=
+  bs.foldl (fun h b => ((h ^^^ b.toNat) * 16777619) % 4294967296) 2166136261
+
+def hex8 (n : Nat) : String :=
+  String.ofList ((List.range 8).reverse.map fun i => hexDigit ((n / 16 ^ i) % 16))
+
+def parseKind : String → Option Kind
+  | "n" => some .none | "u" => some .unit | "b" => some .bytes | "ss" => some .sizedStream
+  | "bs" => some .bodyStream | "xs" => some .rawStream | "xz" => some .rawSized | _ => none
+
+def parseItems (s : String) : Option (List RawItem) :=
+  if s == "-" then some []
+  else (s.splitOn ".").mapM fun t =>
+    if t == "p" then some .pend else if t == "e" then some .err else t.toNat?.map .chunk
+
+def parseHdrs (s : String) : Option (List Header) :=
+  if s == "-" then some []
+  else (s.splitOn ",").mapM fun t =>
+    match t.splitOn "=" with
+    | n :: v :: rest => some (n, joinWith "=" (v :: rest))
+    | _ => none
+
+def parseClient (s : String) : Option (Option Nat × Bool) :=
+  (s.splitOn ".").foldlM (fun (acc : Option Nat × Bool) (t : String) =>
+    let arg := ((t.drop 1).toString).toNat?
+    if t == "a" then some acc
+    else if t == "h" then some (acc.1, true)
+    else if t.startsWith "b" || t.startsWith "d" then arg.map fun _ => acc
+    else if t.startsWith "r" then arg.map fun r => (some r, acc.2)
+    else none) (none, false)
+
+def parseSpec (tok : String) : Option Spec :=
+  match tok.splitOn ":" with
+  | ["s", m, st, kd, its, hs, cl] => do
+    let head ← if m == "G" then some false else if m == "H" then some true
+      else if m.startsWith "P" then ((m.drop 1).toString).toNat?.map fun _ => false else none
+    let status ← st.toNat?
+    if status < 200 || status > 599 then none
+    let kind ← parseKind kd
+    let items ← parseItems its
+    let hdrs ← parseHdrs hs
+    let cl ← parseClient cl
+    some ⟨head, status, kind, items, hdrs, cl.1, cl.2⟩
+  | _ => none
+
+structure Case where
+  w : Nat
+  raw : Bool
+  streams : List Spec
+
+def parseCase (line : String) : Option Case :=
+  (words line).foldlM (fun (c : Case) (tok : String) =>
+    if tok.startsWith "w=" then ((tok.drop 2).toString).toNat?.map fun v => { c with w := v }
+    else if tok == "raw" then some { c with raw := true }
+    else if tok.startsWith "cw=" then ((tok.drop 3).toString).toNat?.map fun _ => c
+    else if tok.startsWith "sw=" then
+      ((tok.drop 3).toString).toNat?.bind fun v => if v == 0 then none else some c
+    else if tok.startsWith "pipe=" then
+      ((tok.drop 5).toString).toNat?.bind fun v => if v == 0 then none else some c
+    else (parseSpec tok).map fun s => { c with streams := c.streams ++ [s] }) ⟨65535, false, []⟩
+  |>.bind fun c => if c.w == 0 || c.streams.length > 8 then none else some c
+
+/-- insert before the first entry whose name is not smaller -/
+def insertSorted (x : Header) : List Header → List Header
+  | [] => [x]
+  | y :: ys => if x.1 < y.1 || x.1 == y.1 then x :: y :: ys else y :: insertSorted x ys
+
+/-- stable sort by name (`foldr` inserts the last element first, earlier equal names go in front) -/
+def sortHeaders (hs : List Header) : List Header := hs.foldr insertSorted []
+
+def showHeaders (hs : List Header) : String :=
+  match sortHeaders hs with
+  | [] => "-"
+  | s => joinWith "," (s.map fun h => h.1 ++ "=" ++ h.2)
+
+def sizeOf (s : Spec) : BodySize :=
+  match s.kind with
+  | .none => .none
+  | .unit => .sized 0
+  | .bytes | .sizedStream | .rawSized => .sized (totalLen s.items)
+  | .bodyStream | .rawStream => .stream
+
+def bodyOf (k : Nat) (s : Spec) : List Item :=
+  match s.kind with
+  | .none | .unit => []
+  | .bytes => if totalLen s.items == 0 then [] else [.chunk (content k 0 (totalLen s.items))]
+  | .sizedStream | .bodyStream => dropEmpty (toItems k 0 s.items)
+  | .rawStream | .rawSized => toItems k 0 s.items
+
+/-- a contract-abiding capacity schedule with varying grants, long enough for `len` bytes -/
+def caps (w len : Nat) : List CapAns :=
+  (List.range (len + 1)).map fun i => .cap (1 + (i * 37 + w) % w + len / 50)
+
+/-- the peer never reopens the window: grants add up to `w`, then no answer any more -/
+def heldCaps : Nat → List Item → List CapAns
+  | _, [] => []
+  | _, .err :: _ => []
+  | b, .chunk bs :: items =>
+    if bs.isEmpty then heldCaps b items
+    else if b == 0 then []
+    else .cap (min bs.length b) :: heldCaps (b - min bs.length b) items
+
+def runStream (w : Nat) (raw : Bool) (k : Nat) (s : Spec) : String :=
+  let body := bodyOf k s
+  let len := (bodyBytes body).length
+  let res : Response := ⟨s.status, sizeOf s, s.hdrs⟩
+  let hasErr := s.items.contains .err
+  -- does the scripted client reset this stream, and after how many polls?
+  let wire0 := handleResponse "@" res s.head body true (caps w len)
+  let bodyPhase := match wire0.head with | some h => !h.eos | none => false
+  let resets := match s.resetAt with
+    | some 0 => true
+    | some r => bodyPhase && r ≤ len
+    | none => false
+  let sched := match s.resetAt with
+    | some r => if resets then [.cap (r - 1), .closed] else caps w len
+    | none => if s.hold then heldCaps w body else caps w len
+  let wire := handleResponse "@" res s.head body true sched
+  let pre := toString k ++ "="
+  match wire.head with
+  | none => pre ++ "rst"
+  | some h =>
+    let hd := pre ++ toString h.status ++ "|" ++ (if raw then "*" else showHeaders h.headers) ++ "|"
+    let abortTag := if s.resetAt.isSome && hasErr then "abort" else ""
+    if s.resetAt == some 0 then hd ++ (if abortTag == "" then "rst" else abortTag)
+    else match wire.end_ with
+      | .done =>
+        let bs := wireBytes wire.frames
+        hd ++ toString bs.length ++ "|" ++ hex8 (fnv32 bs) ++ "|eos"
+      | .closed => hd ++ (if abortTag == "" then "rst" else abortTag)
+      | .bodyErr | .sendErr => hd ++ (if abortTag == "" then "err" else abortTag)
+      | .headErr => pre ++ "rst"
+      | .stalled => if s.hold then hd ++ "held" else pre ++ "hang"
+
+def runCase (c : Case) : String :=
+  let rec go : Nat → List Spec → List String
+    | _, [] => []
+    | k, s :: r => runStream c.w c.raw k s :: go (k + 1) r
+  match go 0 c.streams with
+  | [] => "-"
+  | outs => joinWith ";" outs
+
+def run (line : String) : String :=
+  match parseCase line with
+  | some c => runCase c
+  | none => "bad-case"
 
 end ActixModel.Drv.C08
